@@ -111,6 +111,7 @@ def _concrete_draw(base, shape, dtype, default):
         name = "%s#%d[%s]" % (base, k, ",".join(map(str, idx)))
         v = c.values.get(name)
         out[idx] = float(v) if v is not None else default(name)
+    c.env.setdefault("draws", {}).setdefault(base, []).append(out)
     return out
 
 
@@ -164,6 +165,7 @@ def f_randperm(*a, **kw):
 def _poisson_sample(self, sample_shape=torch.Size()):
     c = cx.CUR
     shape = tuple(sample_shape) + tuple(self.rate.shape if isinstance(self.rate, torch.Tensor) else ())
+    shape = tuple(int(x) for x in shape)
     if c is not None and c.mode == "sym":
         mx = c.env.get("max_jumps", 0)
         if mx == 0:
@@ -205,6 +207,34 @@ def _uniform_sample(self, sample_shape=torch.Size()):
     if c is not None and c.mode == "concrete":
         return _concrete_draw("u", shape, torch.float64, _hash01)
     return _ORIG["uniform_sample"](self, sample_shape)
+
+
+def _mvn_sample(self, sample_shape=torch.Size()):
+    c = cx.CUR
+    shape = tuple(sample_shape) + tuple(self.loc.shape)
+    if c is not None and c.mode == "sym":
+        return st.fresh_tensor(shape, "mvn", None)
+    if c is not None and c.mode == "concrete":
+        return _concrete_draw("mvn", shape, torch.float64, lambda n: (2 * _hash01(n) - 1) * 0.05)
+    return _ORIG["mvn_sample"](self, sample_shape)
+
+
+def _loose_init(cls_name):
+    """Distribution constructors that accept symbolic scalar parameters (only .sample is used, and it is stubbed)."""
+
+    def init(self, *args, validate_args=None, **kw):
+        names = {"Poisson": ("rate",), "Exponential": ("rate",)}[cls_name]
+        vals = dict(zip(names, args))
+        vals.update(kw)
+        if any(isinstance(v, (SymReal, st.SymTensor)) for v in vals.values()):
+            for k, v in vals.items():
+                object.__setattr__(self, k, v)
+            object.__setattr__(self, "_batch_shape", torch.Size())
+            object.__setattr__(self, "_event_shape", torch.Size())
+            return
+        return _ORIG[cls_name + ".__init__"](self, *args, validate_args=validate_args, **kw)
+
+    return init
 
 
 def _math_fn(name, sym_impl):
@@ -293,6 +323,9 @@ def patched():
     _ORIG["poisson_sample"] = torch.distributions.poisson.Poisson.sample
     _ORIG["exponential_sample"] = torch.distributions.exponential.Exponential.sample
     _ORIG["uniform_sample"] = torch.distributions.uniform.Uniform.sample
+    _ORIG["mvn_sample"] = torch.distributions.multivariate_normal.MultivariateNormal.sample
+    _ORIG["Poisson.__init__"] = torch.distributions.poisson.Poisson.__init__
+    _ORIG["Exponential.__init__"] = torch.distributions.exponential.Exponential.__init__
     math_orig = {}
     try:
         torch.tensor = f_tensor
@@ -309,6 +342,9 @@ def patched():
         torch.distributions.poisson.Poisson.sample = _poisson_sample
         torch.distributions.exponential.Exponential.sample = _exponential_sample
         torch.distributions.uniform.Uniform.sample = _uniform_sample
+        torch.distributions.multivariate_normal.MultivariateNormal.sample = _mvn_sample
+        torch.distributions.poisson.Poisson.__init__ = _loose_init("Poisson")
+        torch.distributions.exponential.Exponential.__init__ = _loose_init("Exponential")
         for n, impl in _MATH.items():
             f, orig = _math_fn(n, impl)
             math_orig[n] = orig
@@ -332,5 +368,8 @@ def patched():
         torch.distributions.poisson.Poisson.sample = _ORIG["poisson_sample"]
         torch.distributions.exponential.Exponential.sample = _ORIG["exponential_sample"]
         torch.distributions.uniform.Uniform.sample = _ORIG["uniform_sample"]
+        torch.distributions.multivariate_normal.MultivariateNormal.sample = _ORIG["mvn_sample"]
+        torch.distributions.poisson.Poisson.__init__ = _ORIG["Poisson.__init__"]
+        torch.distributions.exponential.Exponential.__init__ = _ORIG["Exponential.__init__"]
         for n, orig in math_orig.items():
             setattr(math, n, orig)
